@@ -48,6 +48,7 @@ VarOK(o, U) ==
   /\ Matches(Decode(o.val), U)
   /\ Unambiguous(o.val, U)
   /\ ShellSafe(o.cp[2])
+  /\ EnvLineSafe(o.cp[1]) /\ EnvLineSafe(o.cp[2])
 
 \* the property
 Conforms(e) ==
@@ -115,6 +116,7 @@ VarSigs(o, U) ==
       Ured == [i \in DOMAIN U |-> IF Lost(U[i]) THEN [U[i] EXCEPT !.val = <<>>] ELSE U[i]]
       rest == Flag(cause = {} /\ ~(WellFormed(s) /\ Matches(dec, Ured)), "params/decode-mismatch")
   IN cause \cup lost \cup rest \cup Flag(~ShellSafe(o.cp[2]), "params/shell-unsafe-kv-separator")
+     \cup Flag(~(EnvLineSafe(o.cp[1]) /\ EnvLineSafe(o.cp[2])), "params/separator-is-equals-sign")
 
 Sigs(e) ==
   IF e.err THEN Flag(MustEncode(e), "params/plain-set-rejected")
